@@ -30,12 +30,12 @@ MUST_CALL = [
     (TC_VISITOR + "visit_cond", V + "check_cond", "conditions are checked"),
     (V + "check_cond", E + "require_int", "conditions are int-only"),
     (V + "check_stmt_times", E + "require_int", "loop counts are int-only"),
-    (V + "check_stmt_times", E + "require_same", "named counter has the count's type"),
+    (V + "check_stmt_times", E + "require_same", "named counter has the count's type", "present"),
     (V + "check_int_expr", E + "require_int", "interrupt / relative time label expressions are int-only"),
-    (V + "check_stmt_assignment", E + "require_same", "assignment: both sides have the same type"),
-    (V + "check_stmt_assignment", E + "binop_check", "compound assignment: operator class accepts the operand type"),
+    (V + "check_stmt_assignment", (E + "require_same", E + "binop_check"), "assignment: same types (plain) or operator class + same types (compound) on every path"),
+    (V + "check_stmt_assignment", E + "binop_check", "compound assignment: operator class accepts the operand type", "present"),
     (V + "check_stmt_assignment", E + "check_var", "assignment target is a typed variable (sigils only on numeric variables)"),
-    (V + "check_single_var_decl", E + "_require_exact", "declaration: initializer has the declared type"),
+    (V + "check_single_var_decl", E + "_require_exact", "declaration: initializer has the declared type", "present"),
     (V + "check_single_var_decl", E + "check_var_weak", "declaration: variable/sigil validity"),
     (V + "check_stmt_return", E + "_require_exact_expr", "return value matches the function's return type"),
     (V + "check_stmt_expr", E + "require_void", "expression statements must be void"),
@@ -207,15 +207,32 @@ def run(db, tier):
                       "arm calls %s" % r.rsplit("::", 1)[-1], "check_expr arm for %s no longer calls %s" % (v, r))
 
     # ---------------- must-call
-    for fn_id, callee_id, why in MUST_CALL:
+    for ent in MUST_CALL:
+        fn_id, callee_id, why = ent[0], ent[1], ent[2]
+        mode = ent[3] if len(ent) > 3 else "all-paths"
         f = db.fn(fn_id)
         rep.fn(f)
-        key = "%s|%s" % (fn_id, callee_id.rsplit("::", 1)[-1])
+        alts = list(callee_id) if isinstance(callee_id, tuple) else [callee_id]
+        callee_id = alts[0]
+        key = "%s|%s" % (fn_id, "+".join(a.rsplit("::", 1)[-1] for a in alts))
+        if mode == "present":
+            calls_here = db.reachable([f.id])     # transitive: a refactor through a helper keeps the obligation
+            rep.check(any(a in calls_here for a in alts), "R-MUSTCALL", key, f.loc, why + " (conditional requirement: presence)",
+                      "%s no longer calls %s (%s)" % (fn_id, callee_id, why))
+            continue
         calls = set(arms.calls_in(f.hir))
+        in_closure = False
         for c in db.children.get(f.id, []):
             for _, t in c.calls():
-                calls.add(t.get("f"))
-        rep.check(callee_id in calls, "R-MUSTCALL", key, f.loc, why, "%s does not call %s (%s)" % (fn_id, callee_id, why))
+                if t.get("f") == callee_id:
+                    in_closure = True
+        if in_closure and callee_id not in set(t.get("f") for _, t in f.calls()):
+            # the requirement is applied per element inside a closure (iterator adaptor): presence only
+            rep.ok("R-MUSTCALL", key, f.loc, why + " (inside a per-element closure)")
+            continue
+        ok, bad_ret = flow.must_pass(f, alts)
+        rep.check(ok, "R-MUSTCALL", key, f.loc, why + " (on every non-error path to the return)",
+                  "%s can return normally without calling %s (%s)%s" % (fn_id, callee_id, why, "" if bad_ret is None else "; offending return in bb%d" % bad_ret))
 
     # ---------------- arity / parameter types (MIR)
     f = db.fn(E + "check_expr_call")
